@@ -40,6 +40,7 @@ Definition cfg_of (sk : list (string * list string)) : cfg :=
     (has "CompositeTransform.update" "call:transform.update()")
     (has "CompositeTransform.clear_buffers" "call:transform.clear_buffers()")
     (has "CompositeTransform.condition_" "call:transform.condition_(*args, **kwargs)")
-    (has "DenseVectorFieldTransform.grid_" "call:self.data_(flow.tensor())").
+    (has "DenseVectorFieldTransform.grid_" "call:self.data_(flow.tensor())")
+    (has "BSplineTransform.grid_" "call:self.clear_buffers()").
 
 Definition gen_cfg : cfg := cfg_of gen_skeleton.
